@@ -43,6 +43,7 @@ class EventsOracle:
         self.max_calls = max_calls
         self.terminal_by = terminal_by
         self.system = None
+        self.probe_sol = True
 
     def __call__(self, sol_tuple, events, consts, direction, is_terminal, attributes):
         c = self.c
@@ -81,6 +82,11 @@ class EventsOracle:
                 rep = rep[:j + 1]
                 terminate = True
                 break
+        # like the real detector, the oracle evaluates the dense output at scalar times inside the bracket (its mid-point and
+        # every root it reports) - the values are not used, but DenseOutput may keep state between queries
+        if self.probe_sol:
+            for q_ in [t_prev + 0.5 * (t_next - t_prev)] + [r["root"] for r in rep]:
+                sol(q_)
         # the piece of this step inside the real DenseOutput, for the y_e oracle
         piece = None
         for it in sol.y_interpolants:
@@ -217,7 +223,7 @@ def scenario(c, inst, props):
             return
         piece_checks(c, "c06.events", a, probe, backward)
         vals = []
-        for i in range(len(T)):
+        for i in reversed(range(len(T))):       # newest first: the first scalar query after the run is at the time the run stopped
             st_, v_ = run(a.sol, T[i])
             vals.append(st_ == "ok" and _eqv(c, v_, a.y[i]))
         c.check("c06.events.solution_at_recorded_times_is_recorded_state", c.all(vals), info=dict(terminated=terminated, backward=backward))
